@@ -908,6 +908,12 @@ def main(run):
     for i in range(run.n(20, 300)):
         steps = [rng.choice(pool_steps) if rng.random() < 0.8 else rng.choice(iso_steps + damaged_iso) for _ in range(rng.randint(6, 20))]
         hist_cases.append({"part": "history", "steps": steps, "id": i})
+    # every damaged archive of the pool at least once (a failure half-way through unpacking must clean up after itself, whatever the random
+    # histories above happened to draw)
+    dmg = [st for st in pool_steps if st[0] == "zip" and st[1].get("op")]
+    rng.shuffle(dmg)
+    for i in range(0, len(dmg), 12):
+        hist_cases.append({"part": "history", "steps": dmg[i:i + 12], "id": f"dmg{i}"})
     # the same documents through the file entry point with its option flags (a per-call option must stay per call): archives and a few documents,
     # size limits below / above the file and below / above its members, and "no limit"
     rf_docs = ([("zip", ["iso", "zip-mime", "zipA"]), ("zip", ["iso", "tar-mime", "tarB"]), ("zip", ["iso", "zip", "A"]), ("zip", ["iso", "zip", "B"])]
